@@ -159,62 +159,121 @@ def evaluate_history(case):
     shared = len({c["input"] for c in calls}) < len(calls)
     if shared:
         labels.append("input-object-shared-between-calls")
-    nontrivial = len(algs) >= 3 and repeated and raised >= 1
+    by_alg = {}
+    for c, k in zip(calls, keys):
+        by_alg.setdefault(c["alg"], set()).add(k)
+    related = any(len(v) >= 2 for v in by_alg.values())          # one algorithm called in two different ways
+    if related:
+        labels.append("has-related-calls(same-algorithm-different-call)")
+    if len(algs) >= 3 and repeated and raised >= 1:
+        labels.append("3-algorithms+repeat+refusal")
+    nontrivial = len(algs) >= 2 and related and (repeated or raised >= 1 or shared)
     return Result(fails, labels, nontrivial, inconclusive, {"results_in_history": [strip(h) for h in hist][:4]}, subcases=len(calls) + 1)
 
 
 SMALL_EXACT = {"cg": 7, "ckk": 7, "snp": 7, "rnp": 7, "dp": 6, "ilp": 6, "cbldm": 8, "bc": 8}
 
 
+def random_values(draw, n):
+    style = draw(st.sampled_from(["small", "small", "ties", "with-zero", "positive", "spread"]))
+    if style == "ties":
+        pool = draw(st.lists(st.integers(1, 9), min_size=1, max_size=2))
+        return draw(st.lists(st.sampled_from(pool), min_size=n, max_size=n))
+    if style == "with-zero":
+        return draw(st.lists(st.integers(0, 12), min_size=max(1, n - 1), max_size=max(1, n - 1))) + [0]
+    if style == "positive":
+        return draw(st.lists(st.integers(1, 30), min_size=n, max_size=n))
+    if style == "spread":
+        return S.splitmix(draw(st.integers(0, 2 ** 40)), n, 1, 60)
+    return draw(st.lists(st.integers(0, 30), min_size=n, max_size=n))
+
+
+def fresh_call(draw, inputs, j, alg):
+    values = inputs[j]["values"]
+    call = {"alg": alg, "input": j, "outputtype": draw(st.sampled_from(["Partition", "PartitionAndSumsTuple", "Sums", "SortedSums"]))}
+    if alg in sut.PARTITIONERS:
+        k = 2 if alg == "cbldm" else draw(st.integers(2, 3 if alg in ("dp", "ilp") else 4))
+        if alg == "cbldm" and draw(st.integers(0, 5)) == 0:
+            k = 3                                                                   # a refused call
+        call["param"] = k
+        opts = {}
+        if alg == "cg":
+            opts = {"objective": draw(st.sampled_from(S.CG_OBJECTIVES)), "switches": draw(st.sampled_from([[1, 1, 0, 1], [1, 1, 0, 1], [0, 0, 0, 0],
+                                                                                                         [1, 1, 1, 1], [1, 0, 0, 0]]))}
+        elif alg in ("dp", "ilp"):
+            opts = {"objective": draw(S.objective_specs(k))}
+        elif alg == "cbldm" and draw(st.booleans()):
+            opts = {"partition_difference": draw(st.integers(1, 3))}
+        if opts:
+            call["opts"] = opts
+    else:
+        top = max(values)
+        if alg in sut.PACKERS and draw(st.integers(0, 3)) == 0 and top >= 2:
+            call["param"] = draw(st.integers(1, top - 1))                           # an oversize item: a refused call
+        else:
+            call["param"] = max(1, top) + draw(st.integers(0, 20))
+    return call
+
+
 @st.composite
 def history_cases(draw):
+    """Histories in which calls and inputs are RELATED to earlier ones (same algorithm with another number of bins / bin size /
+    objective; the same names with other values; the same values permuted; the same total), because state that leaks between
+    calls - a cache with an incomplete key, an accumulator that is not reset - shows only between related calls."""
     n_inputs = draw(st.integers(1, 3))
     inputs = []
     for _ in range(n_inputs):
+        if inputs and draw(st.integers(0, 1)) == 0:
+            base = inputs[draw(st.integers(0, len(inputs) - 1))]
+            v = list(base["values"])
+            how = draw(st.sampled_from(["same-names-other-values", "same-names-other-values", "permuted", "same-total", "equal-copy"]))
+            if how == "same-names-other-values":
+                v = random_values(draw, len(v))[:len(v)]
+                v = v + [1] * (len(base["values"]) - len(v))
+            elif how == "permuted":
+                v = list(draw(st.permutations(v)))
+            elif how == "same-total" and len(v) >= 2:
+                i, j2 = draw(st.integers(0, len(v) - 1)), draw(st.integers(0, len(v) - 1))
+                d = draw(st.integers(0, v[i]))
+                if i != j2:
+                    v[i] -= d
+                    v[j2] += d
+            inputs.append({"values": v, "pres": base["pres"], "nseed": base["nseed"]})
+            continue
         n = draw(st.integers(2, 7))
-        style = draw(st.sampled_from(["small", "small", "ties", "with-zero", "positive"]))
-        if style == "ties":
-            pool = draw(st.lists(st.integers(1, 9), min_size=1, max_size=2))
-            values = draw(st.lists(st.sampled_from(pool), min_size=n, max_size=n))
-        elif style == "with-zero":
-            values = draw(st.lists(st.integers(0, 12), min_size=n, max_size=n)) + [0]
-        elif style == "positive":
-            values = draw(st.lists(st.integers(1, 30), min_size=n, max_size=n))
-        else:
-            values = draw(st.lists(st.integers(0, 30), min_size=n, max_size=n))
-        inputs.append({"values": values, "pres": draw(st.sampled_from(["list", "list", "array", "dict-str", "dict-int", "names"])),
+        inputs.append({"values": random_values(draw, n), "pres": draw(st.sampled_from(["list", "list", "array", "dict-str", "dict-int", "names"])),
                        "nseed": draw(st.integers(0, 5))})
     calls = []
     ncalls = draw(st.integers(3, 9))
+    algs = cases.ALL_PARTITIONERS + cases.PACKERS + cases.COVERERS
     for _ in range(ncalls):
-        if calls and draw(st.integers(0, 4)) == 0:
-            calls.append(dict(calls[draw(st.integers(0, len(calls) - 1))]))          # a repeated call
+        mode = draw(st.sampled_from(["fresh", "fresh", "repeat", "other-param", "other-param", "other-input", "other-opts"])) if calls else "fresh"
+        if mode == "fresh":
+            calls.append(fresh_call(draw, inputs, draw(st.integers(0, n_inputs - 1)), draw(st.sampled_from(algs))))
             continue
-        j = draw(st.integers(0, n_inputs - 1))
-        values = inputs[j]["values"]
-        alg = draw(st.sampled_from(cases.ALL_PARTITIONERS + cases.PACKERS + cases.COVERERS))
-        call = {"alg": alg, "input": j, "outputtype": draw(st.sampled_from(["Partition", "PartitionAndSumsTuple", "Sums", "SortedSums"]))}
-        if alg in sut.PARTITIONERS:
-            k = 2 if alg == "cbldm" else draw(st.integers(2, 3 if alg in ("dp", "ilp") else 4))
-            if alg == "cbldm" and draw(st.integers(0, 5)) == 0:
-                k = 3                                                                   # a refused call
-            call["param"] = k
-            opts = {}
-            if alg == "cg":
-                opts = {"objective": draw(st.sampled_from(S.CG_OBJECTIVES)), "switches": draw(S.switches)}
-            elif alg in ("dp", "ilp"):
-                opts = {"objective": draw(S.objective_specs(k))}
-            elif alg == "cbldm" and draw(st.booleans()):
-                opts = {"partition_difference": draw(st.integers(1, 3))}
-            if opts:
-                call["opts"] = opts
+        prev = calls[draw(st.integers(0, len(calls) - 1))]
+        if mode == "repeat":
+            calls.append(dict(prev))
+        elif mode == "other-param":
+            c = dict(prev)
+            if c["alg"] in sut.PARTITIONERS and c["alg"] != "cbldm":
+                c["param"] = {2: 3, 3: draw(st.sampled_from([2, 4])), 4: 3}.get(c["param"], 2)
+                if c["alg"] in ("dp", "ilp"):
+                    c["param"] = min(c["param"], 3)
+            elif c["alg"] not in sut.PARTITIONERS:
+                c["param"] = max(1, c["param"] + draw(st.sampled_from([-3, -1, 1, 2, 7])))
+            calls.append(c)
+        elif mode == "other-input":
+            c = fresh_call(draw, inputs, draw(st.integers(0, n_inputs - 1)), prev["alg"])
+            if prev["alg"] in sut.PARTITIONERS:
+                c["param"] = prev["param"]
+                if "opts" in prev:
+                    c["opts"] = prev["opts"]
+            calls.append(c)
         else:
-            top = max(values)
-            if alg in sut.PACKERS and draw(st.integers(0, 3)) == 0 and top >= 2:
-                call["param"] = draw(st.integers(1, top - 1))                           # an oversize item: a refused call
-            else:
-                call["param"] = max(1, top) + draw(st.integers(0, 20))
-        calls.append(call)
+            c = fresh_call(draw, inputs, prev["input"], prev["alg"])
+            c["param"] = prev["param"]
+            calls.append(c)
     return {"kind": "history", "inputs": inputs, "calls": calls}
 
 
@@ -312,8 +371,10 @@ def legs(tier):
             "shared between the calls of the history, incl. repeated calls and refused calls (oversize item, cbldm with 3 bins). The "
             "whole history runs in a child fork()ed from a pristine interpreter that has imported prtpy and never called it; each call "
             "also runs alone in its own pristine child on freshly built arguments (the reference). Every result in the history must equal "
-            "its reference and no argument may change; non-trivial = >= 3 different algorithms, a repeated call and a refused call",
-            strategy=history_cases().map(fix_history), n_quick=1200, n_thorough=24000, valid=valid, shrink=shrink, floor=0.05),
+            "its reference and no argument may change. Calls and inputs are generated RELATED to earlier ones (same algorithm with another number "
+            "of bins / bin size / objective / input; same names with other values; permuted; same total). non-trivial = >= 2 different algorithms, "
+            "one algorithm called in two different ways, and a repeated call or a refused call or a shared input object",
+            strategy=history_cases().map(fix_history), n_quick=2000, n_thorough=40000, valid=valid, shrink=shrink, floor=0.2),
     ]
 
 
